@@ -766,7 +766,7 @@ def scenario(name, rng, noload=False):
     if name == 'nicral-trace':
         # a trace solute (far below 1e-8): its matrix content must be carried as it is, the only permitted deviation being the
         # documented clamp of a NEGATIVE composition
-        return kwnruns.build_ternary(x0=(rng.uniform(0.14, 0.16), 10 ** rng.uniform(-10, -8.5))), 3600 * 10
+        return kwnruns.build_ternary(x0=(rng.uniform(0.105, 0.12), 10 ** rng.uniform(-10, -8.5))), 3600 * 10
     if name == 'nicral-faults':
         # transient backend failures (no equilibrium returned) at scripted growth requests, after precipitates exist
         m = kwnruns.build_ternary()
@@ -893,7 +893,8 @@ def _reset_part(ctx, res, prop, name, m, rec, cfg, pbm0, cap2, driver=True):
 
         def reconf(mm, site=site, vr=vr):
             from kawin.precipitation import VolumeParameter
-            mm.setGrainBoundaryEnergy(0.12)       # admissible ratio to the interfacial energy for grain-boundary sites
+            # admissible ratio (0.6) to the smallest interfacial energy for grain-boundary sites
+            mm.setGrainBoundaryEnergy(1.2 * min(float(np.min(pp.gamma)) for pp in mm.precipitateParameters))
             mm.setNucleationSite(site)
             for pp in mm.precipitateParameters:
                 mm.setVolumeBeta(mm.matrixParameters.volume.Va * vr, VolumeParameter.ATOMIC_VOLUME, mm.matrixParameters.volume.atomsPerCell, phase=pp.phase)
@@ -1218,7 +1219,7 @@ def step_oracles(res, rec, cfg, name, which):
                 # fraction: Vm_alpha / Vm_beta * volume factor * third moment, with the constants the run is configured with
                 pc = cfg['phases'][p]
                 m3 = float(np.sum(np.asarray(ph['psd'], dtype=float) * np.asarray(ph['size'], dtype=float) ** 3))
-                vf = cfg['sites'][6] / pc['vmBeta'] * pc['volumeFactor'] * m3
+                vf = min(cfg['sites'][6] / pc['vmBeta'] * pc['volumeFactor'] * m3, 1.0)      # the code caps the fraction at 1
                 slack = cfg['sites'][6] / pc['vmBeta'] * pc['volumeFactor'] * float(np.sum(np.asarray(ph['size'], dtype=float) ** 3))
                 if abs(yp['volFrac'] - vf) > slack + 1e-9 * max(abs(vf), abs(yp['volFrac'])):
                     res.violate('composed:row-fraction-not-moment-of-stored-distribution', 'the volume fraction recorded for a step is not Vm_alpha/Vm_beta x volume factor x third moment of the distribution the model holds after that step (constants as configured now)',
